@@ -46,6 +46,7 @@ fn main() {
             "reader" => g_reader::gen(&mut rng, thorough, &mut em),
             "tsig" => g_tsig::gen(&mut rng, thorough, &mut em),
             "writer" => g_writer::gen(&mut rng, thorough, &mut em),
+            "writerptr" => g_writer::gen_ptr(&mut rng, thorough, &mut em),
             "server" => g_server::gen(&mut rng, thorough, &mut em),
             "zonefile" => g_zonefile::gen(&mut rng, thorough, &mut em),
             "include" => g_include::gen(&mut rng, thorough, &mut em),
